@@ -274,14 +274,17 @@ def relaxLoop (es : List (Node × Node)) : Nat → Array Nat → Array Nat
     let (lv', ch) := relax es lv
     if ch then relaxLoop es fuel lv' else lv'
 
-/-- longest-path levels (untrusted: only `certOk` of the result matters) -/
-def levels (es : List (Node × Node)) : Node → Nat :=
+/-- longest-path levels, indexed by `Node.code` (untrusted: only `certOk` of the result matters) -/
+def levelArr (es : List (Node × Node)) : Array Nat :=
   let size := es.foldl (fun n p => max n (max p.1.code p.2.code + 1)) 0
-  let lv := relaxLoop es (size + 1) (Array.replicate size 0)
-  fun x => lv.getD x.code 0
+  relaxLoop es (size + 1) (Array.replicate size 0)
+
+def levelOf (lv : Array Nat) (x : Node) : Nat := lv.getD x.code 0
 
 /-- `true` iff the level certificate fails, i.e. (for the levels computed above) iff there is a cycle -/
-def hasCycle (es : List (Node × Node)) : Bool := !certOk es (levels es)
+def hasCycle (es : List (Node × Node)) : Bool :=
+  let lv := levelArr es
+  !certOk es (levelOf lv)
 
 /-! ## helpers of the driver: call closure and the data certificate -/
 
@@ -313,6 +316,7 @@ def openLoop (es : List (Node × Node)) : Nat → List Node → List Node
 def Design.dataCert (D : Design) : DataCert :=
   let es := D.dataEdges
   let opn := openLoop es (es.length + 1) (D.meths.map fun m => Node.dataIn m.id)
-  { dr := levels es, cl := fun x => x.isData && !opn.contains x }
+  let lv := levelArr es
+  { dr := levelOf lv, cl := fun x => x.isData && !opn.contains x }
 
 end TxV.DepGraph
